@@ -58,6 +58,14 @@ impl Solver {
             }
             _ => panic!("unknown solver {which}"),
         };
+        // the solver must not outlive this process (a killed check would otherwise leave spinning solvers behind)
+        unsafe {
+            use std::os::unix::process::CommandExt;
+            cmd.pre_exec(|| {
+                libc::prctl(libc::PR_SET_PDEATHSIG, libc::SIGKILL);
+                Ok(())
+            });
+        }
         let mut child = cmd
             .stdin(Stdio::piped())
             .stdout(Stdio::piped())
